@@ -180,7 +180,7 @@ def c03(scn, run):
     return None
 
 
-def _spec_limit(scn, pool_points, stop_point):
+def _spec_limit(scn, pool_points, stop_point, pool_names=()):
     pts = sorted({p for sec in scn["sections"] for p in S.rec_points(sec["rec"], scn["icp"], scn["fcp"])})
     if not pool_points:
         return None
@@ -188,6 +188,7 @@ def _spec_limit(scn, pool_points, stop_point):
     cand = [p for p in pts if p >= base]
     n = scn["runahead"]
     lim = base if not cand else (cand[n] if len(cand) > n else cand[-1])
+    lim += max([S.future_offset(scn, t) for t in pool_names] or [0])      # future-trigger adjustment
     if stop_point is not None:
         lim = min(lim, stop_point)
     return lim
@@ -208,8 +209,8 @@ def c04(scn, run):
             stop = e["snap"]["stop_point"]
         elif k == "limit":
             if pool:
-                spec = _spec_limit(scn, [p for p, _ in pool], e["stop"])
-                if e["mfo"] is None and e["limit"] != spec:
+                spec = _spec_limit(scn, [p for p, _ in pool], e["stop"], [n for _, n in pool])
+                if e["limit"] != spec:
                     if e["limit"] == e["stop"] and limit == e["stop"] and not e["changed"]:
                         return (f"runahead limit kept at the stop point {e['limit']} although the earliest pool point moved back "
                                 f"(specification gives {spec} for pool points {sorted({p for p, _ in pool})}, "
